@@ -611,7 +611,7 @@ func TestVF_C31_Close(t *testing.T) {
 		var pre, post []out
 		genOut := func(label string) out {
 			return out{Code: rapid.SampledFrom(sendable).Draw(rt, label+"_code"), Reason: rapid.SampledFrom([]string{"", "x", "shutdown"}).Draw(rt, label+"_reason"),
-				ViaWM: rapid.IntRange(0, 7).Draw(rt, label+"_viaWM") == 0}
+				ViaWM: rapid.IntRange(0, 19).Draw(rt, label+"_viaWM") == 0}
 		}
 		for i, n := 0, rapid.SampledFrom([]int{0, 0, 0, 1, 2}).Draw(rt, "npre"); i < n; i++ {
 			pre = append(pre, genOut(fmt.Sprintf("pre%d", i)))
